@@ -22,10 +22,15 @@ the pass repeated and cut at `k`; a file without entries is the error `no ammo i
 def cycled {α : Type} (pass : List α) (k : Nat) : List α × Stop :=
   if pass.isEmpty then ([], .err .noammo) else (cycleTake pass k, .eof)
 
-/-- a well-formed ammo file description: entries and layout within what the format permits
-(uri: additionally every line fits a `bufio.Scanner` token, 64 KiB) -/
+/-- a well-formed ammo file description: entries and layout within what the format permits (no condition on line
+lengths: since /repo 66b1841 the uri decoder reads lines of any length, like the other formats) -/
 def wellFormed (f : Fmt) (items : List Item) (lay : Layout) : Prop :=
-  itemsOK f items = true ∧ layoutOK lay = true ∧ (f = .uri → linesFit (render f items lay) = true)
+  itemsOK f items = true ∧ layoutOK lay = true
+
+/-- … for a uri decoder whose Scanner has the token limit `lim` (the decoder before that repair: `some maxTok`):
+additionally every line of the file fits a token -/
+def wellFormedLim (lim : Option Nat) (items : List Item) (lay : Layout) : Prop :=
+  itemsOK .uri items = true ∧ layoutOK lay = true ∧ linesFitL lim (render .uri items lay) = true
 
 /-- the delivery of any of the three line formats -/
 inductive Delivered where
@@ -54,16 +59,28 @@ def countReqs : List Item → Nat
 
 /-! ### one pass over a rendered file -/
 
-/-- uri: one pass of the scanner over the rendered file yields exactly the entries, with their effective headers -/
-theorem C07_uri_pass (items : List Item) (lay : Layout)
-    (hi : itemsOK .uri items = true) (hl : layoutOK lay = true) (hf : linesFit (render .uri items lay) = true) :
-    uriPass (render .uri items lay) [] = (expAmmo .uri [] items, .eof) := by
+/-- uri, for ANY token limit of the decoder's Scanner (`none`: no limit): one pass over a rendered file all of whose
+lines fit a token yields exactly the entries, with their effective headers -/
+theorem C07_uri_pass_lim (lim : Option Nat) (items : List Item) (lay : Layout)
+    (hi : itemsOK .uri items = true) (hl : layoutOK lay = true) (hf : linesFitL lim (render .uri items lay) = true) :
+    uriPassLim lim (render .uri items lay) [] = (expAmmo .uri [] items, .eof) := by
   obtain ⟨hlead, hper, htrail⟩ := layoutOK_parts hl
-  have hfits := fits_of_linesFit hf
+  have hfits := fits_of_linesFitL hf
   unfold render at hfits ⊢
   obtain ⟨hb, hfits'⟩ := uriPass_blanks lay.lead _ [] hlead hfits
   rw [hb]
   exact uriPass_renderItems lay.finalNL lay.trail htrail items lay.per [] hi hper hfits'
+
+/-- without a limit every file fits -/
+theorem C07_no_limit_fits (file : Bytes) : linesFitL none file = true := by
+  simp [linesFitL, tooLong]
+
+/-- uri as it is in /repo (no line limit since 66b1841): one pass of the scanner over the rendered file yields exactly
+the entries, with their effective headers — whatever the length of its lines -/
+theorem C07_uri_pass (items : List Item) (lay : Layout)
+    (hi : itemsOK .uri items = true) (hl : layoutOK lay = true) :
+    uriPass (render .uri items lay) [] = (expAmmo .uri [] items, .eof) :=
+  C07_uri_pass_lim none items lay hi hl (C07_no_limit_fits _)
 
 /-- uripost: one pass of the (repaired) block reader yields exactly the entries with their bodies -/
 theorem C07_uripost_pass (items : List Item) (lay : Layout)
@@ -88,10 +105,17 @@ theorem C07_raw_pass (items : List Item) (lay : Layout)
 /-- **uri**: the provider delivers the entries of the file, in file order, wrapping around, each with the header
 lines that precede it in the file (accumulated from nothing at every pass) -/
 theorem C07_uri_roundtrip (items : List Item) (lay : Layout) (k : Nat) (pre : Bool)
-    (hi : itemsOK .uri items = true) (hl : layoutOK lay = true) (hf : linesFit (render .uri items lay) = true) :
+    (hi : itemsOK .uri items = true) (hl : layoutOK lay = true) :
     uriDeliver (render .uri items lay) k pre = cycled (expAmmo .uri [] items) k := by
-  unfold uriDeliver
-  rw [C07_uri_pass items lay hi hl hf, deliver_eof]; rfl
+  show deliver (uriPass (render .uri items lay) []) k pre = _
+  rw [C07_uri_pass items lay hi hl, deliver_eof]; rfl
+
+/-- the same for a decoder with a token limit, on files whose lines fit it (the decoder before /repo 66b1841) -/
+theorem C07_uri_roundtrip_lim (lim : Option Nat) (items : List Item) (lay : Layout) (k : Nat) (pre : Bool)
+    (h : wellFormedLim lim items lay) :
+    uriDeliverLim lim (render .uri items lay) k pre = cycled (expAmmo .uri [] items) k := by
+  unfold uriDeliverLim
+  rw [C07_uri_pass_lim lim items lay h.1 h.2.1 h.2.2, deliver_eof]; rfl
 
 /-- **uripost**: the same with bodies of arbitrary bytes (newlines, `[`, NUL, empty, lines that look like entries);
 a last entry without trailing newline is kept -/
@@ -112,9 +136,9 @@ theorem C07_raw_frames (items : List Item) (lay : Layout) (k : Nat) (pre : Bool)
 theorem C07_roundtrip (f : Fmt) (items : List Item) (lay : Layout) (k : Nat) (pre : Bool)
     (h : wellFormed f items lay) :
     decodeAll f (render f items lay) k pre = expectedAll f items k := by
-  obtain ⟨hi, hl, hf⟩ := h
+  obtain ⟨hi, hl⟩ := h
   cases f with
-  | uri => simp only [decodeAll, expectedAll]; rw [C07_uri_roundtrip items lay k pre hi hl (hf rfl)]
+  | uri => simp only [decodeAll, expectedAll]; rw [C07_uri_roundtrip items lay k pre hi hl]
   | uripost => simp only [decodeAll, expectedAll]; rw [C07_uripost_roundtrip items lay k pre hi hl]
   | raw => simp only [decodeAll, expectedAll]; rw [C07_raw_frames items lay k pre hi hl]
 
@@ -184,18 +208,57 @@ theorem C07_count_raw (items : List Item) (hi : itemsOK .raw items = true) :
 /-! ### the model is the model of the CURRENT source (facts regenerated by /verif/gen on every run) -/
 
 /-- the decoders in /repo obtain their lines the way the pass functions of the model describe: uri through a
-`bufio.Scanner` with the default buffer (token limit `maxTok` = bufio.MaxScanTokenSize), uripost and raw through
+`bufio.Scanner` whose buffer may grow to `math.MaxInt` (`newLineScanner`: no line limit, `scanLimit maxIntGo = none`), uripost and raw through
 `ReadString('\n')` (no limit); each of them applies `strings.TrimSpace` to the line, stores a clone of the header
 accumulator in the ammo and uses the methods GET / POST (lemmas of `Pandora.Bridge.C07` about `Pandora.Gen.AmmoDec`) -/
 theorem C07_regenerated_readers :
-    Pandora.Gen.AmmoDec.uriReader = .scanner maxTok ∧ Pandora.Gen.AmmoDec.uripostReader = .readString 10
+    Pandora.Gen.AmmoDec.uriReader = .scanner maxIntGo ∧ scanLimit maxIntGo = none ∧ Pandora.Gen.AmmoDec.uripostReader = .readString 10
       ∧ Pandora.Gen.AmmoDec.rawReader = .readString 10
       ∧ Pandora.Gen.AmmoDec.uriMethod = getBytes ∧ Pandora.Gen.AmmoDec.uripostMethod = postBytes
       ∧ Pandora.Gen.AmmoDec.uriHeaderOrigin = .clone ∧ Pandora.Gen.AmmoDec.uripostHeaderOrigin = .clone
       ∧ Pandora.Gen.AmmoDec.jsonURLPrefix = httpPrefix :=
-  ⟨Pandora.Bridge.C07.uriReader_eq, Pandora.Bridge.C07.uripostReader_eq, Pandora.Bridge.C07.rawReader_eq,
+  ⟨Pandora.Bridge.C07.uriReader_eq, by decide, Pandora.Bridge.C07.uripostReader_eq, Pandora.Bridge.C07.rawReader_eq,
    Pandora.Bridge.C07.methods_eq.1, Pandora.Bridge.C07.methods_eq.2,
    Pandora.Bridge.C07.headerOrigin_eq.1, Pandora.Bridge.C07.headerOrigin_eq.2, Pandora.Bridge.C07.json_facts.1⟩
+
+/-- round 3 — the three string helpers of the line formats, regenerated STATEMENT BY STATEMENT from the current source
+(`util.DecodeHeader`, `uripost.DecodeURI`, `raw.DecodeHeader`: named results, early returns, `if init; cond`, index and
+slice expressions as partial operations), compute for EVERY input what the model's `decodeHeader`, `decodeURI`,
+`rawDecodeHeader` compute, and never reach a run-time panic (`goResult… = some …`).  A helper whose source leaves the
+translator's subset is reported untranslated (`…G? = none`) and nothing is claimed about it in that run. -/
+theorem C07_regenerated_helpers :
+    (∀ g ∈ Pandora.Gen.AmmoDec.decodeHeaderG?, ∀ h : Bytes,
+        Pandora.Bridge.C07.goResult2 (g h) = Pandora.Bridge.C07.modelResult (decodeHeader h))
+    ∧ (∀ g ∈ Pandora.Gen.AmmoDec.decodeURIG?, ∀ s : Bytes,
+        Pandora.Bridge.C07.goResult3 (g s) = Pandora.Bridge.C07.modelResult (decodeURI s))
+    ∧ (∀ g ∈ Pandora.Gen.AmmoDec.rawDecodeHeaderG?, ∀ s : Bytes,
+        (Pandora.Bridge.C07.goResult2 (g s)).map (fun r => r.toOption) = some (rawDecodeHeader s)) := by
+  refine ⟨?_, ?_, ?_⟩
+  · intro g hg h
+    have ht : Pandora.Gen.AmmoDec.decodeHeaderG?.isSome = true := by rw [Option.mem_def.mp hg]; rfl
+    have e : g = Pandora.Gen.AmmoDec.decodeHeaderG := by
+      have := Option.mem_def.mp hg
+      first
+      | exact absurd ht (by decide)
+      | exact (Option.some.inj this).symm
+    rw [e]; exact Pandora.Bridge.C07.decodeHeaderG_eq ht h
+  · intro g hg s
+    have ht : Pandora.Gen.AmmoDec.decodeURIG?.isSome = true := by rw [Option.mem_def.mp hg]; rfl
+    have e : g = Pandora.Gen.AmmoDec.decodeURIG := by
+      have := Option.mem_def.mp hg
+      first
+      | exact absurd ht (by decide)
+      | exact (Option.some.inj this).symm
+    rw [e]; exact Pandora.Bridge.C07.decodeURIG_eq ht s
+  · intro g hg s
+    have ht : Pandora.Gen.AmmoDec.rawDecodeHeaderG?.isSome = true := by rw [Option.mem_def.mp hg]; rfl
+    have e : g = Pandora.Gen.AmmoDec.rawDecodeHeaderG := by
+      have := Option.mem_def.mp hg
+      first
+      | exact absurd ht (by decide)
+      | exact (Option.some.inj this).symm
+    rw [e, Pandora.Bridge.C07.rawDecodeHeaderG_eq ht s]
+    cases rawDecodeHeader s <;> rfl
 
 /-! ### ownership of the header set: WHEN the request is built does not matter
 
@@ -319,35 +382,36 @@ theorem C07_pass_reset_needed : ¬ C07_pass_reset_kept_statement := by
   revert h1
   decide
 
-/-! ### line length: the uri format has the `bufio.Scanner` token limit (64 KiB), uripost and raw have none -/
+/-! ### line length: no format has a line limit (uri: since /repo 66b1841; before, the `bufio.Scanner` default of 64 KiB) -/
 
-/-- the uri round trip WITHOUT the hypothesis that every line fits a Scanner token.  It is FALSE for the code
-(`C07_uri_roundtrip_counterexample`); `C07_uri_roundtrip` is the part that holds (`linesFit`: every line of the file,
-blanks and `\r` included, has fewer than 65536 bytes). -/
+/-- the uri round trip for a decoder whose Scanner has the DEFAULT buffer (what /repo had before 66b1841), stated
+without a hypothesis on line lengths.  It is FALSE (`C07_uri_roundtrip_counterexample`: this is the defect that commit
+repaired); `C07_uri_roundtrip_partial` is the part that held.  For the current decoder the unrestricted statement is
+the theorem `C07_uri_roundtrip`. -/
 def C07_uri_roundtrip_statement : Prop :=
   ∀ (items : List Item) (lay : Layout) (k : Nat) (pre : Bool),
     itemsOK .uri items = true → layoutOK lay = true →
-    uriDeliver (render .uri items lay) k pre = cycled (expAmmo .uri [] items) k
+    uriDeliverLim (some maxTok) (render .uri items lay) k pre = cycled (expAmmo .uri [] items) k
 
-/-- the part that holds: every line shorter than the Scanner limit -/
+/-- the part that held: every line shorter than the Scanner limit -/
 theorem C07_uri_roundtrip_partial (items : List Item) (lay : Layout) (k : Nat) (pre : Bool)
     (hi : itemsOK .uri items = true) (hl : layoutOK lay = true) (hf : linesFit (render .uri items lay) = true) :
-    uriDeliver (render .uri items lay) k pre = cycled (expAmmo .uri [] items) k :=
-  C07_uri_roundtrip items lay k pre hi hl hf
+    uriDeliverLim (some maxTok) (render .uri items lay) k pre = cycled (expAmmo .uri [] items) k :=
+  C07_uri_roundtrip_lim (some maxTok) items lay k pre ⟨hi, hl, hf⟩
 
-/-- a uri file whose first line has 65536 bytes or more is not delivered wrongly, it is REFUSED: the decoder's
-`bufio.Scanner` (default buffer) stops with `token too long`, in either mode, before anything is handed out -/
+/-- with a default Scanner a uri file whose first line has 65536 bytes or more is not delivered wrongly, it is REFUSED:
+`token too long`, in either mode, before anything is handed out -/
 theorem C07_uri_line_limit (line rest : Bytes) (k : Nat) (pre : Bool) (hk : 0 < k)
     (hline : LF ∉ line) (hlong : maxTok ≤ line.length) :
-    uriDeliver (line ++ LF :: rest) k pre = ([], .err .toolong) := by
-  unfold uriDeliver
-  rw [uriPass_toolong line (LF :: rest) [] hline hlong (Or.inr ⟨rest, rfl⟩)]
+    uriDeliverLim (some maxTok) (line ++ LF :: rest) k pre = ([], .err .toolong) := by
+  unfold uriDeliverLim
+  rw [uriPass_toolong maxTok (by decide) line (LF :: rest) [] hline hlong (Or.inr ⟨rest, rfl⟩)]
   cases pre
   · simp [deliver]; omega
   · simp [deliver]
 
-/-- the limit is real: the single entry `/aaa…a` with a target of 65536 bytes is a well-formed uri entry, and the
-provider delivers nothing of it (compare `C07_uripost_any_line_length`: the same target is fine in uripost) -/
+/-- the limit was real: the single entry `/aaa…a` with a target of 65536 bytes is a well-formed uri entry, and a decoder
+with the default Scanner delivers nothing of it -/
 theorem C07_uri_roundtrip_counterexample : ¬ C07_uri_roundtrip_statement := by
   intro hst
   have hi : itemsOK .uri [.req (longTarget 65535) [] []] = true := by
@@ -361,6 +425,17 @@ theorem C07_uri_roundtrip_counterexample : ¬ C07_uri_roundtrip_statement := by
     (by rw [longTarget_length]; decide)] at h
   have h2 := congrArg Prod.snd h
   simp [cycled, expAmmo] at h2
+
+/-- … and is gone: the decoder of /repo delivers a uri entry whose line has ANY length (here a target of `n + 1` bytes
+for every `n`, any tag, any layout, any limit, both modes), exactly like uripost and raw -/
+theorem C07_uri_any_line_length (n : Nat) (t : Bytes) (lay : Layout) (k : Nat) (pre : Bool)
+    (ht : tagOK t = true) (hl : layoutOK lay = true) :
+    uriDeliver (render .uri [.req (longTarget n) t []] lay) k pre
+      = cycled [{ method := getBytes, url := longTarget n, body := [], tag := t, hdrs := [] }] k := by
+  have hi : itemsOK .uri [.req (longTarget n) t []] = true := by
+    simp [itemsOK, itemOK, longTarget_ok, ht, sizeOK]
+  rw [C07_uri_roundtrip _ lay k pre hi hl]
+  simp [expAmmo]
 
 /-- uripost reads its lines with `ReadString`: a request line of ANY length is one line (here a target of `n + 1`
 bytes for every `n`, any tag, any body, any layout, any limit, both modes) -/
@@ -440,11 +515,11 @@ theorem C07_file_headers_win (cfg h : Hdrs) (key v : Bytes) (hk : hget h key = s
 /-- the executable Spec (`judge`, the same function that is evaluated on the REAL provider's observation)
 accepts what the uri model delivers, for all entries, layouts, limits, modes and `headers` options -/
 theorem C07_uri_spec (cfg : Hdrs) (items : List Item) (lay : Layout) (k : Nat) (pre : Bool)
-    (hi : itemsOK .uri items = true) (hl : layoutOK lay = true) (hf : linesFit (render .uri items lay) = true)
+    (hi : itemsOK .uri items = true) (hl : layoutOK lay = true)
     (hk : targetsKnown items = true) :
     ∃ e rs, modelObs (withCfgRes cfg (uriDeliver (render .uri items lay) k pre)) = some (e, rs) ∧
       judge (expected ((expReqs .uri cfg [] items).map reqStr) k) (expectedErr ((expReqs .uri cfg [] items).map reqStr)) rs e = "ok" :=
-  modelObs_ok .uri (by decide) cfg items k hk _ (C07_uri_roundtrip items lay k pre hi hl hf)
+  modelObs_ok .uri (by decide) cfg items k hk _ (C07_uri_roundtrip items lay k pre hi hl)
 
 theorem C07_uripost_spec (cfg : Hdrs) (items : List Item) (lay : Layout) (k : Nat) (pre : Bool)
     (hi : itemsOK .uripost items = true) (hl : layoutOK lay = true) (hk : targetsKnown items = true) :
@@ -588,7 +663,7 @@ example : render .uri exItems exLay ≠ render .uri exItems exLay2 := by decide
 
 /-- … both are well-formed, so `C07_layout_invariant` applies to them -/
 example : wellFormed .uri exItems exLay ∧ wellFormed .uri exItems exLay2 := by
-  refine ⟨⟨by decide, by decide, fun _ => by decide⟩, ⟨by decide, by decide, fun _ => by decide⟩⟩
+  refine ⟨⟨by decide, by decide⟩, ⟨by decide, by decide⟩⟩
 
 /-- 2.5 passes over the uripost example (k = 5 with 2 entries per pass): the theorem applies and the result is a
 real delivery (5 requests, no error) -/
@@ -603,7 +678,9 @@ example : (rawDeliver (render .raw exRaw exLay2) 3 true).1.length = 3 := by
   rw [C07_raw_frames exRaw exLay2 3 true (by decide) (by decide)]
   exact (C07_wraparound _ (by decide) 3).2.1
 
-/-- the hypotheses of `C07_uri_line_limit` are met by a real line: 65536 letters (no newline among them) -/
+/-- the hypotheses of `C07_uri_line_limit` are met by a real line: 65536 letters (no newline among them); the short
+example file meets `wellFormedLim (some maxTok)` -/
+example : wellFormedLim (some maxTok) exItems exLay := ⟨by decide, by decide, by decide⟩
 example : LF ∉ longTarget 65535 ∧ maxTok ≤ (longTarget 65535).length :=
   ⟨longTarget_noLF _, by rw [longTarget_length]; decide⟩
 
@@ -658,7 +735,7 @@ def exLayU : Layout :=
             { pre := [0xE2, 0x80, 0x80, 32], post := [0xC2, 0xA0, 13] }]
     finalNL := true, trail := [0xC2, 0xA0] }
 example : layoutOK exLayU = true ∧ wellFormed .uri exItems exLayU := by
-  refine ⟨by decide, by decide, by decide, fun _ => by decide⟩
+  refine ⟨by decide, by decide, by decide⟩
 example : render .uri exItems exLayU ≠ render .uri exItems exLay := by decide
 /-- `http://h.x:8080/a?b=c` meets the hypotheses of `C07_absolute_target`, and such entries are inside `targetsKnown` -/
 example : hostOK [104, 46, 120, 58, 56, 48, 56, 48] = true ∧ uriOK [47, 97, 63, 98, 61, 99] = true
